@@ -29,6 +29,10 @@ type txSpec struct {
 }
 
 func runC06(c *core.Ctx) {
+	if core.FAvailable() {
+		runC06F(c) // Engine F phase (instrumented build): concurrent peers, per-transaction linearizability
+		return
+	}
 	if c.T.Chance(2, 5) {
 		runC06EndToEnd(c)
 		return
@@ -481,5 +485,6 @@ func init() {
 		ProbeNames:   []string{"run-with-stalled-deliveries", "announcement-during-stalled-delivery", "announcement-while-outstanding", "re-request-after-timeout-on-announcement", "retry-granted", "unsolicited-delivery", "duplicate-delivery", "getdata-seen", "request-ignored-by-peer", "retry-request-sent", "same-tx-announced-by-two-peers-same-instant"},
 		Run:          runC06,
 		QuickSeconds: 20, ThoroughSeconds: 600, MinRuns: 300, BatchSize: 50, RunTimeoutSeconds: 240,
+		FQuickSeconds: 10, FThoroughSeconds: 300,
 	})
 }
